@@ -782,6 +782,38 @@ fn dedup_sweep() {
             let id3 = fa(&mut b2, f, u);
             if id3 != id1 { println!("MISMATCH {} requested again after new_from_module: id {} (first {})", la, id3, id1); }
         }
+        // an identical declaration WITHOUT a result id earlier in the section does not hide the one with an id
+        {
+            let mut b = Builder::new();
+            let f = b.type_float(32, None);
+            let u = b.type_int(32, 0);
+            let id1 = fa(&mut b, f, u);
+            let mut twin = b.module_ref().types_global_values.iter().find(|i| i.result_id == Some(id1)).cloned();
+            if let Some(mut t) = twin.take() {
+                t.result_id = None;
+                b.insert_types_global_values(rspirv::dr::InsertPoint::Begin, t);
+                let n1 = b.module_ref().types_global_values.len();
+                let id2 = fa(&mut b, f, u);
+                let n2 = b.module_ref().types_global_values.len();
+                if id2 != id1 || n2 != n1 { println!("MISMATCH {} requested again with an id-less identical declaration in front: id {} (first {}), declarations {} -> {}", la, id2, id1, n1, n2); }
+            }
+        }
+        // the version set LAST on the builder is the module's version
+        {
+            let mut b = Builder::new();
+            b.set_version(1, 0);
+            let _ = b.type_void();
+            b.set_version(1, 3);
+            let m1 = b.module_ref().header.as_ref().map(|h| h.version());
+            if m1 != Some((1, 3)) { println!("MISMATCH set_version(1,0) .. set_version(1,3): header version {:?}", m1); }
+            b.set_version(1, 5);
+            let m = b.module();
+            if m.header.as_ref().map(|h| h.version()) != Some((1, 5)) { println!("MISMATCH third set_version(1,5): module version {:?}", m.header.as_ref().map(|h| h.version())); }
+            let mut b2 = Builder::new_from_module(m);
+            b2.set_version(1, 1);
+            let m2 = b2.module();
+            if m2.header.as_ref().map(|h| h.version()) != Some((1, 1)) { println!("MISMATCH set_version after new_from_module: {:?}", m2.header.as_ref().map(|h| h.version())); }
+        }
         // continuation: ids reserved but never defined are below the bound; the continued builder starts AT the bound
         {
             let mut b = Builder::new();
